@@ -255,6 +255,21 @@ Theorem model_passes_check :
 Proof. exact model_passes_check_lemma. Qed.
 Print Assumptions model_passes_check.
 
+(** The harness writes cases compressed (a feed observation equal to the previous step's is
+    omitted); [check_case_c] expands and checks.  The encoding is lossless, and the model's own
+    trace passes in the compressed form as well. *)
+Theorem compressed_cases_lossless :
+  forall (c : case) (prev : list (Z * fobs)), expand_from prev (compress_from prev c) = c.
+Proof. exact expand_compress. Qed.
+Print Assumptions compressed_cases_lossless.
+
+Theorem model_passes_check_compressed :
+  forall (names : list Z) (steps : list step),
+    run_consistent init steps = true -> Forall step_ok steps ->
+    check_case_c (compress_from [] (model_trace names init steps)) = (-1, -1, 0).
+Proof. exact model_passes_check_c_lemma. Qed.
+Print Assumptions model_passes_check_compressed.
+
 (** ** Non-vacuity: a concrete history exercising every hypothesis *)
 Definition ex_out (m : Z) : output := [(0, Some (m, 0))].
 Definition ex_history : list step :=
